@@ -183,9 +183,16 @@ func genMalformed(rng *rand.Rand) string {
 }
 
 // refConflict: reference compatibility relation. ok=false: the statement does not rule on it.
-func refConflict(a, b *ref.Type) (conflict bool, ok bool) {
+func refConflict(a, b *ref.Type) (conflict bool, ok bool) { return refConflictEnum(a, b, false) }
+
+// refConflictEnum: with enumAdopts the target side holds inferable ColEnum columns, which take
+// over whatever enum definition (8 or 16 bit) the block declares.
+func refConflictEnum(a, b *ref.Type, enumAdopts bool) (conflict bool, ok bool) {
 	an, bn := normType(a), normType(b)
 	if an == bn {
+		return false, true
+	}
+	if enumAdopts && strings.HasPrefix(a.Base, "Enum") && strings.HasPrefix(b.Base, "Enum") {
 		return false, true
 	}
 	isEnum := func(t *ref.Type, w int) bool { return (t.Base == "Enum8" && w == 8) || (t.Base == "Enum16" && w == 16) }
@@ -234,7 +241,19 @@ func refConflict(a, b *ref.Type) (conflict bool, ok bool) {
 	}
 	switch a.Base {
 	case "Array", "Nullable", "LowCardinality":
-		return refConflict(a.Args[0], b.Args[0])
+		return refConflictEnum(a.Args[0], b.Args[0], enumAdopts)
+	case "Map", "Tuple":
+		// element-wise: a certain conflict in any position makes the whole conflict; anything
+		// else about same-base composites is left unspecified
+		if len(a.Args) != len(b.Args) {
+			return true, true
+		}
+		for i := range a.Args {
+			if c, ok := refConflictEnum(a.Args[i], b.Args[i], enumAdopts); ok && c {
+				return true, true
+			}
+		}
+		return false, false
 	case "DateTime":
 		return false, true // time-zone parameters are compatible
 	case "DateTime64":
@@ -453,6 +472,14 @@ func c19(r *core.Run) {
 	pool = append(pool, c19Plain...)
 	pool = append(pool, "Decimal32", "Decimal64", "Decimal128", "Decimal256", "Enum8", "Enum16", "Map(String,String)", "Map(String, String)", "Map(String,Int32)",
 		"DateTime('UTC')", "DateTime('Europe/Moscow')", "Array(Int8)", "Array(Enum8('a' = 1))", "Nullable(Int16)", "Nullable(Enum16('a' = 1))", "LowCardinality(String)", "Decimal(9, 2)", "Decimal(9,2)", "Decimal(76, 38)", "Nullable(Decimal(76, 38))", "Nullable(Decimal256)")
+	// maps and tuples that differ in one position only, behind parameterised first elements
+	for _, k := range []string{"String", "LowCardinality(String)", "DateTime64(3)", "Enum8('a' = 1, 'b' = 2)", "Decimal(9, 2)", "FixedString(4)", "DateTime('UTC')", "Nullable(Int32)"} {
+		for _, v := range []string{"Int64", "UInt64", "String", "Array(String)", "Nullable(Int64)"} {
+			pool = append(pool, "Map("+k+", "+v+")")
+		}
+		pool = append(pool, "Tuple("+k+", Int64)", "Tuple("+k+", UInt64)", "Tuple("+k+", Int64, String)")
+	}
+	poolN += 64
 	for len(pool) < poolN {
 		pool = append(pool, genWellFormed(prng, prng.Intn(3)))
 	}
